@@ -352,8 +352,20 @@ type Snake_ID2Doc struct {
 	N int `sod:"index"`
 }
 
+// (Go identifiers may contain any Unicode letter)
+type Café struct {
+	sod.Item
+	N int `sod:"index"`
+}
+
+type ÉtatCivilΩ struct {
+	sod.Item
+	N int `sod:"index"`
+}
+
 func nameTypes() map[string]sod.Object {
-	return map[string]sod.Object{"Doc": &Doc{}, "Other": &Other{}, "HTTPDoc": &HTTPDoc{}, "X509": &X509{}, "T": &T{}, "Snake_ID2Doc": &Snake_ID2Doc{}}
+	return map[string]sod.Object{"Doc": &Doc{}, "Other": &Other{}, "HTTPDoc": &HTTPDoc{}, "X509": &X509{}, "T": &T{}, "Snake_ID2Doc": &Snake_ID2Doc{},
+		"Other2": &Other2{}, "Café": &Café{}, "ÉtatCivilΩ": &ÉtatCivilΩ{}}
 }
 
 // dirNamesNow: for every type and both LowercaseNames settings, the directory
